@@ -19,9 +19,15 @@
    Last section: conversion bindings that carry the further documented binding parameters (`group`,
    `includeSnapshotsFrom`) in any position of a chain - the model (C15_BindModel) follows a step from
    the hook's configuration to the binding context its hook reads (MapV1), the Spec (C15_BindSpec)
-   demands that every executed hook read the conversion request of its step. *)
+   demands that every executed hook read the conversion request of its step.
+
+   Very last section: what a step's hook returns AS ENCODED, element by element (C15_EncModel: an element
+   of convertedObjects is a JSON object whose apiVersion is a string / missing / null / not a string, or
+   null, or no object; ExtractAPIVersions decodes every element into a fresh TypeMeta).  C15_EncSpec
+   reads "at the desired version" per element; the theorems hold for all lists. *)
 From Coq Require Import String.
 From Verif Require Import Common C15_Model C15_Spec C15_Proofs C15_BindModel C15_BindSpec C15_BindProofs.
+From Verif Require Import C15_EncModel C15_EncSpec C15_EncProofs.
 
 (* ---- the search ---- *)
 
@@ -408,3 +414,66 @@ Example C15_params_example :
               (RSuccess [(200, (Some 1, 5))]%N) = false
   /\ link_for (all_links ex_hooks) ((None, 3), (None, 5))%N = None.
 Proof. repeat split; vm_compute; reflexivity. Qed.
+
+
+(* ---- hook outputs as encoded: one decoding per element ---- *)
+
+(* the handler's test after every step ("all objects already are at desiredAPIVersion") is true exactly
+   when the list is not empty and EVERY element is an object whose apiVersion is the desired string -
+   whatever stands before or after an element without one *)
+Theorem C15_enc_done_iff_every_element : forall desired objs,
+  is_done_e desired objs = true <-> objs <> [] /\ forall o, In o objs -> at_desired desired o = true.
+Proof. exact done_iff_every_element. Qed.
+Print Assumptions C15_enc_done_iff_every_element.
+
+(* the full statement of part 2 over encoded outputs, for ALL chains, outcome scripts and requests *)
+Theorem C15_enc_meets_spec : forall dtext desired chain outs req t r,
+  serve_e dtext desired chain outs req = (t, r) -> P_enc desired chain outs req t r = true.
+Proof. exact serve_e_meets_spec. Qed.
+Print Assumptions C15_enc_meets_spec.
+
+(* Success: as many elements as requested, every one at the desired version *)
+Theorem C15_enc_success_every_element : forall dtext desired chain outs req t objs,
+  serve_e dtext desired chain outs req = (t, ERSuccess objs) ->
+  length objs = length req /\ forall o, In o objs -> at_desired desired o = true.
+Proof. exact success_every_element. Qed.
+Print Assumptions C15_enc_success_every_element.
+
+(* a step's output that holds an element not at the desired version (no apiVersion IS not at the desired
+   version) never ends the chain early: if that step was the last one invoked it was the last rule of
+   the chain and the answer is Failed ... *)
+Theorem C15_enc_unversioned_not_cut : forall dtext desired chain outs req t r k objs o,
+  serve_e dtext desired chain outs req = (t, r) -> k < length t ->
+  nth k outs EExitFail = EResp [] objs -> In o objs -> at_desired desired o = false ->
+  length t = S k -> length chain = S k /\ exists message, r = ERFailure message.
+Proof. exact unversioned_element_not_cut. Qed.
+Print Assumptions C15_enc_unversioned_not_cut.
+
+(* ... and if the chain has a further rule, that rule's hook is invoked *)
+Theorem C15_enc_unversioned_next_step : forall dtext desired chain outs req t r k objs o,
+  serve_e dtext desired chain outs req = (t, r) -> k < length t ->
+  nth k outs EExitFail = EResp [] objs -> In o objs -> at_desired desired o = false ->
+  S k < length chain -> S k < length t.
+Proof. exact unversioned_element_next_step. Qed.
+Print Assumptions C15_enc_unversioned_next_step.
+
+(* non-vacuity: chain v1 -> v3 -> v5, desired v5; step 1 answers [object at v5; object WITHOUT apiVersion]:
+   the hypotheses of the two theorems above are met with k = 0, the second hook runs on exactly that
+   output and the answer is its output.  One step whose output is [object at v5; null]: Failed.  And the
+   Spec is not idle: Success after step 1 alone is rejected. *)
+Definition ex_echain : list rule := [((None, 0), (None, 3)); ((None, 3), (None, 5))]%N.
+Definition ex_eout1 : list eobj := [EObj 100 (AStr (SVer (None, 5))); EObj 101 AMissing]%N.
+Definition ex_eout2 : list eobj := [EObj 200 (AStr (SVer (None, 5))); EObj 201 (AStr (SVer (None, 5)))]%N.
+Definition ex_ereq : list eobj := [wf (1, (None, 0)); wf (2, (None, 0))]%N.
+Example C15_enc_example :
+  serve_e (str "v3") (None, 5)%N ex_echain [EResp [] ex_eout1; EResp [] ex_eout2] ex_ereq
+  = ([(((None, 0), (None, 3)), ex_ereq); (((None, 3), (None, 5)), ex_eout1)]%N, ERSuccess ex_eout2)
+  /\ In (EObj 101 AMissing)%N ex_eout1 /\ at_desired (None, 5)%N (EObj 101 AMissing)%N = false
+  /\ 1 < length ex_echain
+  /\ serve_e (str "v3") (None, 5)%N [((None, 3), (None, 5))]%N [EResp [] [EObj 100 (AStr (SVer (None, 5))); ENull]%N]
+             [wf (1, (None, 3)); wf (2, (None, 3))]%N
+     = ([(((None, 3), (None, 5)), [wf (1, (None, 3)); wf (2, (None, 3))])]%N,
+        ERFailure (str "Conversion to v3 was not successuful"))
+  /\ P_enc (None, 5)%N ex_echain [EResp [] ex_eout1; EResp [] ex_eout2] ex_ereq
+           [(((None, 0), (None, 3)), ex_ereq)]%N (ERSuccess ex_eout1) = false.
+Proof. repeat split; try (vm_compute; reflexivity). now right; left. Qed.
